@@ -62,6 +62,11 @@ DInitState(f, sc) == [ph |-> "idle", att |-> 0, e |-> 0, inq |-> <<>>, q |-> 0,
                       waited |-> 0]
 \* what goes on the wire: the question and the EDNS payload size (-1: no OPT)
 OnWire(s) == [q |-> s.q, ups |-> s.conf.eff.ups]
+\* the receive buffer the transport offers to its socket: recv_size octets
+\* (-1 as long as no attempt got as far as receiving; a local fault ends the
+\* request, so only the first attempt may not have got there)
+EverRecv(s) == s.att >= 2 \/ (s.att = 1 /\ ~(s.fault.kind # "none" /\ s.fault.at = 1))
+RecvBuf(s) == IF EverRecv(s) THEN s.conf.eff.rsz ELSE -1
 
 Fail(s, why) == [s EXCEPT !.ph = "done", !.inq = <<>>, !.done = Append(@, ErrOut(why))]
 FaultAt(s, kind) == s.fault.kind = kind /\ s.fault.at = s.att + 1
